@@ -937,9 +937,13 @@ func (m *Nitro) StoreToDisk(dir string, snap *Snapshot, concurr int, itmCallback
 	files := make([]string, shards)
 	checksums := make([]uint32, shards)
 	defer func() {
+		// Item data is still buffered here: a failing flush or close means the
+		// backup is incomplete and must not be reported as success.
 		for _, w := range writers {
 			if w != nil {
-				w.Close()
+				if cerr := w.Close(); cerr != nil && err == nil {
+					err = cerr
+				}
 			}
 		}
 	}()
@@ -964,7 +968,9 @@ func (m *Nitro) StoreToDisk(dir string, snap *Snapshot, concurr int, itmCallback
 		defer func() {
 			for _, w := range deltaWriters {
 				if w != nil {
-					w.Close()
+					if cerr := w.Close(); cerr != nil && err == nil {
+						err = cerr
+					}
 				}
 			}
 		}()
